@@ -229,28 +229,44 @@ def ipKind (host : Bytes) : IpKind :=
         | some h => if h / 64 = 1018 then .v6LinkLocal else .other
         | .none => .invalid
 
-/-- `get_adjusted_url(url, addr)` as repaired (any failure to split / read host or port returns
-    the URL unchanged).  `none` = the URL is outside the modelled grammar (non-printable or
-    non-ASCII bytes, userinfo, IPvFuture, IPv4-suffixed IPv6). -/
-def adjustUrl (url : Bytes) (a : Addr) : Option Bytes :=
-  if !(a.v6 ∧ a.scope ≠ 0) then some url
-  else if !url.all (fun b => 33 ≤ b && b ≤ 126) then .none
+/-- why `get_adjusted_url` hands the URL back unchanged — the three `…Error` cases are the ones
+    where the unrepaired code raised (F02c, F02d, F02e) -/
+inductive SameWhy
+  | notScoped        -- source is not a scoped IPv6 tuple
+  | splitError       -- `urlsplit` raises ValueError (unbalanced brackets, invalid bracketed host)
+  | noHost           -- `data.hostname` is None / empty
+  | notIp            -- `ip_address(hostname)` raises ValueError (caught in the original code)
+  | notLinkLocal
+  | portError        -- `data.port` raises ValueError
+deriving DecidableEq, Repr
+
+inductive UrlOutcome
+  | same (why : SameWhy)
+  | adjusted (u : Bytes)
+  | unmodelled       -- outside the modelled grammar
+deriving DecidableEq, Repr
+
+/-- `get_adjusted_url(url, addr)` on the URL grammar, with the reason when nothing is adjusted.
+    `unmodelled`: non-printable or non-ASCII bytes, userinfo, IPvFuture, IPv4-suffixed IPv6. -/
+def urlOutcome (url : Bytes) (a : Addr) : UrlOutcome :=
+  if !(a.v6 ∧ a.scope ≠ 0) then .same .notScoped
+  else if !url.all (fun b => 33 ≤ b && b ≤ 126) then .unmodelled
   else
     -- scheme
     let (scheme, rest) :=
       match splitFirst COLON url with
       | some (s, r) => if !s.isEmpty && isAlpha (s.headD 0) && s.all isSchemeChar then (lower s, r) else ([], url)
       | .none => ([], url)
-    if !(startsWith rest [47, 47]) then some url            -- no netloc: hostname is None
+    if !(startsWith rest [47, 47]) then .same .noHost          -- no netloc: hostname is None
     else
       let rest2 := rest.drop 2
       let netloc := rest2.takeWhile (fun b => b != 47 && b != 63 && b != 35)
       let tail := rest2.dropWhile (fun b => b != 47 && b != 63 && b != 35)
-      if netloc.contains 64 then .none
+      if netloc.contains 64 then .unmodelled
       else
         let hasO := netloc.contains 91
         let hasC := netloc.contains 93
-        if hasO != hasC then some url                        -- ValueError: Invalid IPv6 URL
+        if hasO != hasC then .same .splitError                  -- ValueError: Invalid IPv6 URL
         else
           -- hostname / port text (`_hostinfo`)
           let (hostRaw, portTxt, bracketed) :=
@@ -263,7 +279,7 @@ def adjustUrl (url : Bytes) (a : Addr) : Option Bytes :=
               match splitFirst COLON netloc with
               | some (h, p) => (h, p, false)
               | .none => (netloc, [], false)
-          if bracketed ∧ hostRaw.headD 0 = 118 then .none     -- IPvFuture
+          if bracketed ∧ hostRaw.headD 0 = 118 then .unmodelled     -- IPvFuture
           else
             -- hostname: lower-cased before `%`
             let host := match splitFirst 37 hostRaw with
@@ -271,15 +287,16 @@ def adjustUrl (url : Bytes) (a : Addr) : Option Bytes :=
               | .none => lower hostRaw
             let kind := ipKind host
             -- `_check_bracketed_host` inside urlsplit
-            if bracketed ∧ (kind = .invalid ∨ kind = .v4LinkLocal ∨ (parseIPv4 host).isSome) then some url
-            else if bracketed ∧ kind = .unmodelled then .none
-            else if host.isEmpty then some url                -- hostname None
+            if bracketed ∧ (kind = .invalid ∨ kind = .v4LinkLocal ∨ (parseIPv4 host).isSome) then .same .splitError
+            else if bracketed ∧ kind = .unmodelled then .unmodelled
+            else if host.isEmpty then .same .noHost              -- hostname None
             else match kind with
-              | .unmodelled => .none
-              | .invalid | .other => some url
+              | .unmodelled => .unmodelled
+              | .invalid => .same .notIp
+              | .other => .same .notLinkLocal
               | .v4LinkLocal | .v6LinkLocal =>
                 -- `.port`
-                if !portTxt.isEmpty ∧ (!portTxt.all isDigit ∨ portTxt.length > 4300 ∨ decVal portTxt > 65535) then some url
+                if !portTxt.isEmpty ∧ (!portTxt.all isDigit ∨ portTxt.length > 4300 ∨ decVal portTxt > 65535) then .same .portError
                 else
                   let port := decVal portTxt
                   let netloc' := 91 :: host ++ 37 :: natDec a.scope ++ [93]
@@ -293,7 +310,15 @@ def adjustUrl (url : Bytes) (a : Addr) : Option Bytes :=
                   let u := if scheme.isEmpty then u else scheme ++ COLON :: u
                   let u := if query.isEmpty then u else u ++ 63 :: query
                   let u := if frag.isEmpty then u else u ++ 35 :: frag
-                  some u
+                  .adjusted u
+
+/-- `get_adjusted_url(url, addr)` as repaired (any failure to split / read host or port returns
+    the URL unchanged); `none` = outside the modelled grammar -/
+def adjustUrl (url : Bytes) (a : Addr) : Option Bytes :=
+  match urlOutcome url a with
+  | .same _ => some url
+  | .adjusted u => some u
+  | .unmodelled => .none
 
 /-! ### decoding -/
 
